@@ -148,8 +148,11 @@ func (e *Engine) rangeStart(st *State, x *ssa.Range) Val {
 	m := e.get(st, x.X)
 	e.iterCtr++
 	id := e.iterCtr
-	dom := tb.Ite(tb.Eq(m.T[0], tb.Int(0)), tb.ConstArr(SArrB, tb.False()), tb.Select(e.H(st, e.mapDomClass(mt), SArr2B), m.T[0]))
-	st.Iters[id] = iterState{Map: m.T[0], Visited: tb.ConstArr(SArrB, tb.False()), Dom: dom, KeyT: mt.Key(), ValT: mt.Elem()}
+	domT := tb.Ite(tb.Eq(m.T[0], tb.Int(0)), tb.ConstArr(SArrB, tb.False()), tb.Select(e.H(st, e.mapDomClass(mt), SArr2B), m.T[0]))
+	// a name for the domain, so that quantifier patterns over it contain no if-then-else
+	dom := tb.Fresh("rangedom", SArrB)
+	e.assume(st, tb.Eq(dom, domT))
+	st.Iters[id] = iterState{Map: m.T[0], Visited: tb.ConstArr(SArrB, tb.False()), Dom: dom, KeyT: mt.Key(), ValT: mt.Elem(), Count: tb.Int(0), Len0: e.mapLen(st, mt, m.T[0])}
 	return Val{T: []*Term{tb.Int(int64(id))}, Ann: map[string]Ann{"": &IterX{ID: id, KeyT: mt.Key(), ValT: mt.Elem()}}}
 }
 
@@ -179,6 +182,15 @@ func (e *Engine) rangeNext(st *State, x *ssa.Next) Val {
 	}
 	e.wfVal(st, it.ValT, vv)
 	it.Visited = tb.Ite(okT, tb.Store(it.Visited, kk, tb.True()), it.Visited)
+	if it.Count != nil && it.Len0 != nil && e.Opts.TokenModel {
+		// a range over a map yields exactly as many keys as the map holds (the loops in scope do not modify the map they range over)
+		e.Assumed["map iteration (round-trip lemmas only): a range loop yields each key once and exactly len(map) keys; the encoders in scope do not modify the map they range over"] = true
+		e.assume(st, tb.Implies(tb.Not(okT), tb.Eq(it.Count, it.Len0)))
+		e.assume(st, tb.Implies(okT, tb.Lt(it.Count, it.Len0)))
+	}
+	if it.Count != nil {
+		it.Count = tb.Ite(okT, tb.Add(it.Count, tb.Int(1)), it.Count)
+	}
 	it.Last = kk
 	st.Iters[ix.ID] = it
 	if st.Disc != nil {
